@@ -12,6 +12,7 @@ import (
 	"verifharness/internal/hx"
 	"verifharness/internal/model"
 	"verifharness/internal/srv"
+	"verifharness/internal/wxgen"
 )
 
 func main() { hx.Main("C12", runC12) }
@@ -152,6 +153,10 @@ func runC12(r *hx.Result, cfg hx.Config) {
 	c12BlackBox(r, cfg, rng)
 	c12Where(r, cfg, rng, drv)
 	c12Round3(r, cfg) // seeds_r3.go: several MATCH patterns, hooks+channels, COUNT shortcut histories
+	// WHERE "<expr>" (Model/WhereExpr.v, driver ocaml/whereexpr): harness/internal/wxgen
+	r.Rule += " " + wxgen.Rule
+	r.Assumptions = append(r.Assumptions, wxgen.Assumptions...)
+	wxgen.Run(r, cfg, rng)
 }
 
 func respStrings(v srv.Value) []string {
